@@ -1086,6 +1086,9 @@ impl<S> tower::Layer<S> for MemLayer {
 
 type Chunked = StreamBody<futures_util::stream::Iter<std::vec::IntoIter<Result<http_body::Frame<Bytes>, std::convert::Infallible>>>>;
 
+/// Mixed into the choice of the cuts. 0 in a run; a replay walks through 0..256, because the bytes of a replayed request
+/// differ from the recorded ones in the request id (a fresh client counts from 0) and would be cut elsewhere.
+pub static CUT_SALT: std::sync::atomic::AtomicU64 = std::sync::atomic::AtomicU64::new(0);
 pub static HTTP_BODIES_IN_SEVERAL_FRAMES: std::sync::atomic::AtomicU64 = std::sync::atomic::AtomicU64::new(0);
 pub static HTTP_FRAME_STARTS_AT_BLANK: std::sync::atomic::AtomicU64 = std::sync::atomic::AtomicU64::new(0);
 pub static HTTP_FRAME_STARTS_INSIDE_CHARACTER: std::sync::atomic::AtomicU64 = std::sync::atomic::AtomicU64::new(0);
@@ -1098,6 +1101,10 @@ fn chunked(bytes: Bytes) -> Chunked {
 	let mut h: u64 = 0xcbf29ce484222325;
 	for b in bytes.iter() {
 		h = (h ^ *b as u64).wrapping_mul(0x100000001b3);
+	}
+	let salt = CUT_SALT.load(Relaxed);
+	if salt != 0 {
+		h = (h ^ salt).wrapping_mul(0x100000001b3) | 1;
 	}
 	let mut cuts: Vec<usize> = Vec::new();
 	if h % 4 != 0 && bytes.len() > 1 {
@@ -2104,10 +2111,24 @@ fn main() {
 		let case: Case = serde_json::from_value(w["witness"]["case"].clone()).expect("witness.case");
 		let salt = w["witness"]["salt"].as_u64().unwrap_or(1);
 		println!("replaying {} via {}/{} name={:?} enc={} params={:?}", case.tag, case.path, case.via, case.name, case.enc, method(&case.tag).and_then(|m| params_text(m, &case)));
-		let res = block_on_virtual(async {
+		let mut res = block_on_virtual(async {
 			let env = Env::new(salt).await?;
 			run_case(&env, &case).await
 		});
+		if case.via == "http" {
+			// the same case under other cuts of the HTTP bodies
+			for cut in 1..256u64 {
+				if !matches!(&res, Ok(o) if o.violations.is_empty()) {
+					break;
+				}
+				CUT_SALT.store(cut, std::sync::atomic::Ordering::Relaxed);
+				res = block_on_virtual(async {
+					let env = Env::new(salt).await?;
+					run_case(&env, &case).await
+				});
+			}
+			println!("replay: HTTP bodies cut under salt {}", CUT_SALT.load(std::sync::atomic::Ordering::Relaxed));
+		}
 		match res {
 			Ok(out) => {
 				ev.eval();
